@@ -231,6 +231,22 @@ PROPS['C10'] = dict(
     explanation='Lockset theorem over an acquire/release LTS (mutual exclusion invariant by induction) + kernel-decided discipline on the table regenerated from the source; the stress engine under the race detector is the search for a failing schedule.',
 )
 
+PROPS['C15'] = dict(
+    modules=['Vivid.Props.C15', 'Vivid.Tie.Registry'],
+    gens=['registry'],
+    engines=[dict(name='transp', must_hit=['op:tell', 'op:tellv', 'op:ask', 'op:kill', 'op:poison', 'op:watch', 'op:unwatch', 'op:ping', 'op:pipe-ok', 'op:pipe-fail', 'loc:remote', 'cfg:codec', 'cfg:registered'])],
+    rule='transp: two real systems over loopback TCP, once with a user Codec and once with RegisterCustomMessage; every ActorRef-taking operation (Tell of a pointer and of a value message, Ask/Reply, Kill graceful and poison, Watch, Unwatch, Ping, '
+         'PipeTo with success and with failure results x local/remote forwarder) is executed from inside an actor against a local and against a remote target. Observation: the effects seen by the actors involved (messages with sender role, OnKill fields, '
+         'termination, OnKilled.Ref, Pong, PipeResult content; references are rendered by role and checked to carry the address of the system the actor lives on) and the built-in message types the remoting layer reports as sent. Compared with the model, '
+         'and local vs remote compared with each other on the implementation alone (monitor TRANSPARENCY). Every case is distinct.',
+    exhaustive=True,
+    trusted_base=COMMON_TRUST + ['wall-clock settling (250-450 ms per case) before reading the observation', 'ves.RemotingMessageSentEvent as the record of what went over the wire'],
+    assumptions=['user payloads (the told/asked message, the reply, the message nested in a PipeResult) cross the wire through the user codec or their registered reader/writer: their round-trip is the user\'s obligation, not modelled',
+                 'the validation of (address, path) by actor.NewRef when a reference is rebuilt is not modelled: references that exist in a system are valid by construction',
+                 'partial: timing (the reply arrives within the timeout) and C11\'s delivery guarantees are assumed here'],
+    explanation='Spec = a location-free effect per operation; model adds the wire table and the transmissibility of each built-in message (schema present + C12 round-trip); theorem: observe = effect for every op x target x forwarder location; as-found witness for remote Kill / Watch.',
+)
+
 # Text of level_claimed per property (MANIFEST); NOT_APPLICABLE: properties not claimed, with reason.
 LEVEL_TEXT = {}
 NOT_APPLICABLE = {}
